@@ -71,7 +71,7 @@ fn tag_of(msg: &[u8], t: &str) -> Option<String> {
             if let Some(c) = cur.take() {
                 found = Some(c);
             }
-            if line.len() >= 15 && line[..15].eq_ignore_ascii_case("dkim-signature:") {
+            if line.len() >= 15 && line.is_char_boundary(15) && line[..15].eq_ignore_ascii_case("dkim-signature:") {
                 cur = Some(line[15..].to_owned());
             }
         }
@@ -138,6 +138,14 @@ fn build(hdrs: &[(String, String)], body: &str) -> Option<Result<Message, String
             Ok(n) => n,
             Err(_) => return Some(Err("name".into())),
         };
+        // a Cc value that is a mailbox list goes through the typed header: addresses are written as they are (UTF-8 local
+        // parts and domains included), only display names are encoded
+        if n.eq_ignore_ascii_case("cc") {
+            if let Ok(mb) = v.parse::<lettre::message::Mailboxes>() {
+                m.headers_mut().set(lettre::message::header::Cc::from(mb));
+                continue;
+            }
+        }
         m.headers_mut().insert_raw(HeaderValue::new(name, v.clone()));
     }
     Some(Ok(m))
